@@ -2,9 +2,13 @@
 (* C07 / C08 as operators over an observable record r = [scn |-> .., obs |-> ..].      *)
 (*  scn.n        number of inputs (inputs are 1..n, Target(x) = x)                     *)
 (*  scn.retry    "T" | "F"                                                              *)
+(*  scn.retres   "T" | "F"   Pool.run(return_results=...)                               *)
 (*  obs.outcome  "ok" | "poolerror" | "internal_error" | "livelock" | "hang" | ...     *)
 (*  obs.ret      sequence: for each returned/partial result the input it is the value  *)
-(*               of (0 = not the target's value of any input)                           *)
+(*               of (0 = not the target's value of any input); with per-worker input    *)
+(*               callables the input is the whole tuple drawn, so a value computed from *)
+(*               a tuple that was never drawn counts as 0                               *)
+(*  obs.retnone  "T" iff run() returned None / PoolError.partial_results is None        *)
 (*  obs.alive    sequence of workers still alive (able to work) when run() ended        *)
 (*  obs.dead     sequence of workers dead when run() ended                              *)
 (*  obs.refusers sequence of workers for which the user enqueue_fn ever refused         *)
@@ -16,9 +20,10 @@ Range(s) == {s[k] : k \in 1..Len(s)}
 NoDup(s) == \A a, b \in 1..Len(s) : a # b => s[a] # s[b]
 
 C07_NoInternalError(r) == r.obs.outcome \in {"ok", "poolerror"}
-C07_ExactlyOnce(r) == (r.obs.outcome = "ok" /\ r.scn.retry = "T") =>
+C07_ExactlyOnce(r) == (r.obs.outcome = "ok" /\ r.scn.retry = "T" /\ r.scn.retres = "T") =>
                          /\ Len(r.obs.ret) = r.scn.n
                          /\ Range(r.obs.ret) = 1..r.scn.n
+                         /\ r.obs.retnone = "F"
 C07_Terminates(r) == r.obs.outcome \notin {"hang", "livelock", "running"}
 
 C08_SoundError(r) == r.obs.outcome = "poolerror" => Len(r.obs.alive) = 0
